@@ -302,9 +302,7 @@ func (E *Engine) applySpec(st *State, in ssa.Instruction, spec *FuncSpec, callee
 	if nres > 0 {
 		if spec.Pure {
 			res = E.pureResult(spec, sig, args, bindings)
-			for _, l := range leaves(res) {
-				facts = append(facts, E.wfScalar(l.T, l.S)...)
-			}
+			facts = append(facts, E.loadFacts(st, res)...)
 		} else {
 			res = E.freshVal(sig.Results(), "r:"+label, &facts)
 		}
